@@ -71,6 +71,7 @@ structure St where
   zombieLives : Nat := 0
   prunes : Nat := 0
   strict : Bool := false
+  zfixed : Bool := false                  -- FACT zslot2: does `makeZombiePubkeys` put node2 in slot 2
   former : List (Scid × ChanInfo) := []   -- every channel that was in the implementation's graph
   concOps : Nat := 0
   concBarriers : Nat := 0
@@ -573,7 +574,9 @@ def step (s : St) (line : String) : IO St := do
     let cfg := { s.cfg with expiry := (kvNat? rest "expiry").getD 0,
                             rebroadcast := (kvNat? rest "rebroadcast").getD 0,
                             burst := (kvNat? rest "burst").getD 0 }
-    let mut s := { s with cfg := cfg }
+    let mut s := { s with cfg := cfg, zfixed := (kvNat? rest "zslot2").getD 1 == 2 }
+    if (kvNat? rest "zslot2").getD 0 != 1 && (kvNat? rest "zslot2").getD 0 != 2 then
+      s ← mismatch s s!"fact zslot2={(kvNat? rest "zslot2").getD 0}: the strict zombie key probe failed"
     if cfg.expiry != 14 * 24 * 3600 then s ← mismatch s s!"fact expiry={cfg.expiry}"
     if (kvNat? rest "interval").getD 0 < 30 then s ← mismatch s "fact interval too small for the burst model"
     return s
@@ -635,7 +638,7 @@ def step (s : St) (line : String) : IO St := do
     let gBefore := s.ms.g
     let exists_ := (lookup scid gBefore.chans).isSome
     let strict := n rest "strict" == 1
-    let g := if exists_ then (gBefore.delZombie strict scid).pruneNodes s.cfg.self else gBefore
+    let g := if exists_ then (gBefore.delZombie strict s.zfixed scid).pruneNodes s.cfg.self else gBefore
     let mut s := { s with ms := { s.ms with g := g }, ops := s.ops + 1, prunes := s.prunes + 1 }
     let mres := if exists_ then "ok" else "err"
     if sv ws "res" != mres then s ← mismatch s s!"del: result model={mres} impl={sv ws "res"}"
@@ -647,7 +650,7 @@ def step (s : St) (line : String) : IO St := do
   | "zpr" :: rest =>
     let now := n rest "now"
     let after := parseDump ws
-    let g := zombiePrune s.cfg s.strict now s.ms.g
+    let g := zombiePrune s.cfg s.strict s.zfixed now s.ms.g
     let rm := zprRemovable s now
     let mut s := { s with ms := { s.ms with g := g }, ops := s.ops + 1, zombiePrunes := s.zombiePrunes + 1 }
     if sv ws "relay" != "-" then s ← mismatch s s!"zpr relayed {sv ws "relay"}"
